@@ -111,6 +111,7 @@ func frameWrite(args []string) error {
 	if err != nil {
 		return err
 	}
+	w.flush = true
 	n := 0
 	err = readND(*in, func(line []byte) error {
 		var c wcase
@@ -308,6 +309,7 @@ func frameRead(args []string) error {
 	if err != nil {
 		return err
 	}
+	w.flush = true
 	n := 0
 	var contentKey string
 	var contentCache []byte
@@ -325,7 +327,7 @@ func frameRead(args []string) error {
 		if limit == 0 {
 			limit = 1 << 28
 		}
-		var m0 memStat
+		var m0 *memStat
 		if *mem {
 			m0 = memBefore()
 		}
@@ -424,6 +426,7 @@ func readerSeq(args []string) error {
 	if err != nil {
 		return err
 	}
+	w.flush = true
 	n := 0
 	err = readND(*in, func(line []byte) error {
 		var c rseqCase
